@@ -277,7 +277,7 @@ def run(prog, rep):
                       'invalid_argument -> std::invalid_argument; no success outcome on failure', floor=2)
     errc_map.check(prog, rep, 'R16.1', FUND, 1)
 
-    rep.rule('R16.2', 'std::to_chars: the result is checked (ec compared, failure throws) and the buffer holds the longest output of the instantiated type', floor=8)
+    rep.rule('R16.2', 'std::to_chars: the result is checked (ec compared, failure throws), the buffer holds the longest output of the instantiated type, and the value printed is the source value (no value-changing cast on the way)', floor=8)
     n2 = 0
     for f in sorted(prog.funcs.values(), key=lambda g: g.id):
         if f.body is None or f.relfile != FUND:
@@ -298,6 +298,29 @@ def run(prog, rep):
                     rep.finding('R16.2', 'to_chars|buffer|%s' % vt, f.loc(n), 'to_chars(%s) may need %d characters, the buffer has %d' % (vt, need, size), func=f.id)
                 else:
                     rep.ok('R16.2', site + '|buffer', sample={'type': vt, 'buffer': size, 'longest_output': need})
+                # the number handed to to_chars is the source value itself: every cast on the way from the parameter keeps the value
+                from rules.c04 import LOSSY_KINDS, value_preserving
+                from bsv.expr import resolve as _res
+                e = n['c'][3] if len(n['c']) > 3 else None
+                lossy = None
+                while e is not None:
+                    if e['k'] in ('ImplicitCastExpr', 'CXXStaticCastExpr', 'CStyleCastExpr', 'CXXFunctionalCastExpr') and e.get('ck') in LOSSY_KINDS and e.get('c'):
+                        src_t, dst_t = f.type(e['c'][0]), f.type(e)
+                        if not value_preserving(src_t, dst_t, e['ck']):
+                            lossy = (base_type(src_t), base_type(dst_t))
+                    if e['k'] == 'DeclRefExpr':
+                        r2 = _res(f, e)
+                        if r2 is None or r2 is e or r2['k'] == 'DeclRefExpr' and r2.get('d') == e.get('d'):
+                            break
+                        e = r2
+                        continue
+                    e = e['c'][0] if e.get('c') and e['k'] in ('ImplicitCastExpr', 'CXXStaticCastExpr', 'CStyleCastExpr', 'CXXFunctionalCastExpr',
+                                                               'ParenExpr', 'MaterializeTemporaryExpr', 'ExprWithCleanups') else None
+                if lossy:
+                    rep.finding('R16.2', 'to_chars|value cast|%s' % lossy[0], f.loc(n), 'the value is converted from %s to %s before it is printed: values '
+                                'outside the range of %s are printed as a different number' % (lossy[0], lossy[1], lossy[1]), func=f.id)
+                else:
+                    rep.ok('R16.2', site + '|value printed as is', nontrivial=False)
                 # the result variable's ec must be compared and the failing branch must throw
                 cmp_ec = [x for x in f.walk() if x['k'] == 'BinaryOperator' and x.get('op') in ('!=', '==') and any(m2.get('m') == 'ec' for m2 in f.walk(x) if m2['k'] == 'MemberExpr')]
                 throws = [x for x in f.walk() if x['k'] == 'CXXThrowExpr']
